@@ -616,3 +616,54 @@ func litField(cl *ast.CompositeLit, name string) ast.Expr {
 	}
 	return nil
 }
+
+// parentMap records the parent of every node under root.
+func parentMap(root ast.Node) map[ast.Node]ast.Node {
+	pm := map[ast.Node]ast.Node{}
+	var stack []ast.Node
+	ast.Inspect(root, func(n ast.Node) bool {
+		if n == nil {
+			stack = stack[:len(stack)-1]
+			return false
+		}
+		if len(stack) > 0 {
+			pm[n] = stack[len(stack)-1]
+		}
+		stack = append(stack, n)
+		return true
+	})
+	return pm
+}
+
+// enclosingCase walks up from n to the nearest case clause of a tagged switch
+// and returns the clause and the switch.
+func enclosingCase(pm map[ast.Node]ast.Node, n ast.Node) (*ast.CaseClause, *ast.SwitchStmt) {
+	for cur := pm[n]; cur != nil; cur = pm[cur] {
+		if cc, ok := cur.(*ast.CaseClause); ok {
+			if blk, ok := pm[cc].(*ast.BlockStmt); ok {
+				if sw, ok := pm[blk].(*ast.SwitchStmt); ok {
+					return cc, sw
+				}
+			}
+		}
+	}
+	return nil, nil
+}
+
+// isLHS reports whether e is (part of) the left-hand side of an assignment.
+func isLHS(pm map[ast.Node]ast.Node, e ast.Node) bool {
+	for cur, child := pm[e], e; cur != nil; cur, child = pm[cur], cur {
+		if as, ok := cur.(*ast.AssignStmt); ok {
+			for _, l := range as.Lhs {
+				if l == child {
+					return true
+				}
+			}
+			return false
+		}
+		if _, ok := cur.(ast.Stmt); ok {
+			return false
+		}
+	}
+	return false
+}
